@@ -197,6 +197,7 @@ pub fn blocks(thorough: bool) -> Vec<Block> {
         b.push(Block::new(Universe::new("U_abc3{a,b,c}", &["a", "b", "c"], 3, 4, false), vec![Cfg::new(0)], "{}"));
         b.push(Block::new(Universe::new("U_ab4{a,b}", &["a", "b"], 4, 5, false), vec![Cfg::new(0)], "{}"));
         b.push(Block::new(u_prefix_suffix(), vec![Cfg::new(D), Cfg::new(W), Cfg::new(W | D), Cfg::new(D | R)], "d, w, w+d, d+r"));
+        b.push(Block::new(Universe::new("U_tok{\\d,1,\\,d}", &["\\d", "1", "\\", "d"], 3, 2, false), vec![Cfg::new(D | R), Cfg::new(D | W | R), Cfg::new(D)], "d+r, d+w+r, d"));
         b.push(Block::new(Universe::new("U_adv(A_gcm)", A_GCM, 3, 1, false), vec![Cfg::new(0), Cfg::new(R), Cfg::new(NW)], "{}, r, W"));
     } else {
         b.push(Block::new(Universe::new("U_adv(A_cons)", A_CONS, 1, 4, false), vec![Cfg::new(0), Cfg::new(I)], "{}, i"));
